@@ -29,7 +29,7 @@ def _local_alphabet(profile, role):
     if role == "id" or profile in ("json", "provn", "graph", "dot"):
         extra += "/"
     if profile == "dot":
-        extra += '"\\<>&{}| '     # identifiers that are hostile to DOT / HTML-like labels
+        extra += '"\\<>&{}| %'     # identifiers that are hostile to DOT / HTML-like labels / format strings
     if profile != "provn":
         return _ASCII_LOCAL + "é漢", extra
     return _ASCII_LOCAL + "é漢", extra
